@@ -45,6 +45,7 @@ def tables(bs):
         'copy_src': 'conj(self._key == %s, self._factory.g_fid == %s, self._factory.block_size == %s)' % (KEY, FID, BS),
         # a cached tag is only ever returned when no update can have followed it
         'tag': '(self._mac_tag is not None and not self._update_after_digest) ==> self._mac_tag == spec.aead1.omac(%s, %s, %s, %s, self.digest_size)' % (FID, KEY, M, BS),
+        'tag_len': '(self._mac_tag is not None and not self._update_after_digest and self.digest_size <= %s) ==> len(self._mac_tag) == self.digest_size' % BS,
     }
     return {'inv_' + k: v for k, v in inv.items()}
 
@@ -111,8 +112,9 @@ def registry(bs=16, state=None, buf='bytes|memoryview'):
     # ------------------------------------------------------------------ update (C09 / C10)
     refused = 'self._mac_tag is not None and not self._update_after_digest'
     nat.bytearray_fields_at_call_sites(reg, Contract(
-        CM + '.update', params={'msg': buf}, raises={'TypeError': ('iff', refused)}, returns='self',
-        ensures=ens({'message': '%s == %s + bytes(msg)' % (M, OM), 'self': 'result is self'}),
+        CM + '.update', params={'msg': buf}, requires=['valid(self)'], raises={'TypeError': ('iff', refused)}, returns='self',
+        ensures=ens({'message': '%s == %s + bytes(msg)' % (M, OM), 'self': 'result is self',
+                     'size': 'self._data_size == old(self._data_size) + len(msg)'}),
         # stepping stones for the path "cache filled up, whole blocks chained, rest cached": the message splits at the fill
         # point f = bs - old(_cache_n) and at the start of the new rest
         lemmas={'exit': {
@@ -127,8 +129,9 @@ def registry(bs=16, state=None, buf='bytes|memoryview'):
     cached = '(self._mac_tag is not None and not self._update_after_digest)'
     TAGV = 'spec.aead1.omac(%s, %s, %s, %s, self.digest_size)' % (FID, KEY, M, BS)
     too_long = 'not %s and self._data_size > spec.aead1.omac_max(%s)' % (cached, BS)
-    reg.add(Contract(CM + '.digest', params={}, raises={'ValueError': ('iff', too_long)},
-                     ensures=ens({'tag': 'result == %s' % TAGV, 'cached': 'self._mac_tag == result'}),
+    reg.add(Contract(CM + '.digest', params={}, requires=['valid(self)'], raises={'ValueError': ('iff', too_long)},
+                     ensures=ens({'tag': 'result == %s' % TAGV, 'cached': 'self._mac_tag == result',
+                                  'len': 'impl(self.digest_size <= %s, len(result) == self.digest_size)' % BS}),
                      sets={'self._mac_tag': TAGV}, returns=TAGV,
                      lemmas={'exit': {'parts': 'result == spec.aead1.omac_parts(%s, %s, %s, take(bytes(self._cache), self._cache_n), %s, self.digest_size)' % (FID, KEY, FED, BS)}},
                      instances={'exit': [
@@ -138,7 +141,7 @@ def registry(bs=16, state=None, buf='bytes|memoryview'):
                          # padded last block: ((C_{n-1} xor P) xor K2) = C_{n-1} xor (K2 xor P),  P = rest || 1 0^j
                          '%s(self._last_ct, take(bytes(self._cache), self._cache_n) + b"\\x80" + rep(b"\\x00", %s - self._cache_n - 1), self._k2)' % (AC, BS)]},
                      modifies=['self._mac_tag'], opaque=['spec.aead1.omac', 'spec.aead1.omac_k1', 'spec.aead1.omac_k2', 'spec.aead1.omac_max', 'spec.aead1.bx']))
-    reg.add(Contract(CM + '.verify', params={'mac_tag': buf.replace('bytes|memoryview', 'buffer')},
+    reg.add(Contract(CM + '.verify', params={'mac_tag': buf.replace('bytes|memoryview', 'buffer')}, requires=['valid(self)'],
                      raises={'ValueError': ('iff', '(%s) or bytes(mac_tag) != %s' % (too_long, TAGV))},
                      ensures=ens({'cached': 'self._mac_tag == %s' % TAGV, 'none': 'result is None'}),
                      sets={'self._mac_tag': TAGV}, modifies=['self._mac_tag'], opaque=OPQ,
